@@ -59,3 +59,7 @@ func (v *VerifSender) Snapshot() (queue []string, active []string, status map[st
 func VerifBuildWebSocketURL(serverURL, joinCode, peerID, role string, maxReceivers int) (string, error) {
 	return buildWebSocketURL(serverURL, joinCode, peerID, role, maxReceivers)
 }
+
+func VerifComputeParallelBudget(fileCount, requested, conns int, striping bool) (int, int) {
+	return computeParallelBudget(fileCount, requested, conns, striping)
+}
